@@ -983,7 +983,9 @@ HandleExpiredShard(cfg, w, sid) ==
                 rest == IF i = 0 THEN o.shards ELSE SubSeq(o.shards, 1, i - 1) \o SubSeq(o.shards, i + 1, Len(o.shards))
                 \* what is still listed may all belong elsewhere (shards migrating in under other orders, copied into this list
                 \* when the order was created): the order goes with its last own shard
-                own == \E j \in 1..Len(rest) : HasShard(w2, rest[j]) /\ ShardOf(w2, rest[j]).order = o.id
+                \* (a shard that still has this order queued as a renewal - its periods may be offset - is its own as well)
+                own == \E j \in 1..Len(rest) : HasShard(w2, rest[j]) /\
+                          (ShardOf(w2, rest[j]).order = o.id \/ \E q \in 1..Len(ShardOf(w2, rest[j]).renew) : ShardOf(w2, rest[j]).renew[q].order = o.id)
             IN IF own THEN SetOrder(w2, [o EXCEPT !.shards = rest]) ELSE DelOrder(w2, o.id)
 
 \* EndBlock at the current height (sao -> node -> model), in app.go's order
